@@ -670,7 +670,26 @@ pub fn run(tier: &str, seed: u64, report: &mut Report) {
         let case_seed = seed.wrapping_mul(1_000_003).wrapping_add(h as u64);
         let mut rng = Rng::new(case_seed);
         let go = GenOpts { max_nodes: 14, block: 16, cap: 8, ..Default::default() };
-        let steps = gen_history(&mut rng, max_steps, &go, true, true);
+        let mut steps = gen_history(&mut rng, max_steps, &go, true, true);
+        if h == 0 {
+            // directed: a delete request that names several versions AND one that does not exist — it fails part
+            // way; which versions are gone afterwards must be the same in every replay (twice, to compound)
+            let mut clock = 1_700_000_000_000_000_000;
+            let mut t = gen_tree(&mut rng, &go);
+            steps = vec![];
+            for _ in 0..4 {
+                steps.push(Step::SetTree(t.clone()));
+                steps.push(Step::Backup(gen_params(&mut rng)));
+                t = mutate_tree(&mut rng, &t, &go, &mut clock);
+            }
+            steps.push(Step::Delete(vec![0, 1, 2, 7], false));
+            steps.push(Step::SetTree(t.clone()));
+            steps.push(Step::Backup(gen_params(&mut rng)));
+            steps.push(Step::Backup(gen_params(&mut rng)));
+            steps.push(Step::Delete(vec![4, 9, 3, 5], false));
+            steps.push(Step::Backup(gen_params(&mut rng)));
+            report.hit("directed:multi-version-delete-naming-a-missing-version");
+        }
         let case_id = json!({"case_seed": case_seed, "steps": history_json(&steps)});
         let w = [1usize, 4, 16];
         let mut conds = vec![
